@@ -332,7 +332,13 @@ func (e *Engine) onNack(name enc.Name, reason uint64) {
 			e.log.Fatalf("PIT has empty entry. This should not happen. Please check the implementation.")
 		}
 	}
-	n.Delete()
+	// Only the entries of the Nacked name are resolved: empty this node (a timer that
+	// already fired and waits for the lock must not find them again) and unlink it
+	// only if nothing is pending below; pending ancestors stay.
+	n.SetValue(nil)
+	n.DeleteIf(func(lst []*pendInt) bool {
+		return len(lst) == 0
+	})
 }
 
 func (e *Engine) onError(err error) error {
